@@ -10,6 +10,15 @@ ALL = [f"C{i:02d}" for i in range(1, 20)]
 
 # id -> (engine, category, level text, level note, technique, design_ref)
 CHECKS = {
+ "C04": ("L2 network simulation", "exploration",
+   "The complete real ChainService (connmgr, btcd peers, block manager, work manager, stores on disk) runs against scripted wire peers: one honest peer plus stale / lighter-fork / invalid-header / filter-liar / silent / garbage / flapping / no-CF / no-witness / slow peers in random or forced connection order; the honest chain keeps growing and reorganises. SAFETY is checked at every 3 ms sample (reported best block is on a fully valid generated chain), BOUNDED PROGRESS per phase (a miss is a violation only if the client's state was stable for the last third of a deadline derived from the protocol timers, else inconclusive), and the stores are re-validated at the end.",
+   "Schedule-dependent (which peer becomes sync peer); deadlines are derived from btcd's stall timeout and the worker timeouts; one child process per scenario. Known finding listed: exhausted sync peer below the last checkpoint.",
+   "runtime monitoring: sampled public-API safety oracle + bounded-progress oracle over a scripted hostile network", "5/C04"),
+ "C08": ("crash runner", "fault_enumeration",
+   "Seeded scripts of appends / filter batches / rollbacks / reorganisation composites run on the real stores; EVERY crash point of every primitive (before/after each flat-file write, five torn lengths inside each write, after each truncate, after each index commit) yields a crash image that is opened like a restarting client and must open, hold exactly the before- or after-state in each store, have whole-record files agreeing with the tips, consistent by-hash lookups, filter tip <= block tip, and accept appends at the right heights. A sample of the same points is re-done with a real SIGKILL of a child process; the thorough tier adds SIGKILLs at random instants.",
+   "Process-death model (completed syscalls persist; bbolt commit atomic); power-loss reordering out of reach; header import and store creation are not in the scripts.",
+   "runtime monitoring: exhaustive crash-point enumeration with crash images / real SIGKILL + recovery oracle", "5/C08"),
+
  "C07": ("headerfs component driver", "fault_enumeration",
    "Both real header stores (one shared bbolt DB) are driven by seeded histories of appends / rollbacks / reopens against an independent slice model with EVERY read method compared after every call; for a subset of histories every single-fault position (4 short-write kinds, seek/stat/truncate/sync failures on either flat file, DB update not run / rolled back) of every append and rollback is enumerated; a failed append must leave every read equal to the pre-call model and the next append must work.",
    "Single transient faults only; caller contract of the real callers (filter store rolled back before block store, filter appends only for stored blocks); behaviour after a failed ROLLBACK is recorded, not asserted (the statement covers failed appends).",
@@ -93,11 +102,15 @@ def main():
         "engines": [
             {"name": "L1 block-manager driver", "path": "harness/internal/l1", "serves_properties": ["C01", "C02", "C03", "C19"],
              "kind_free_text": "real blockManager + real headerfs stores, scripted network, synchronous message-at-a-time driving, store read-back after every step"},
+            {"name": "L2 network simulation", "path": "harness/internal/l2", "serves_properties": ["C03", "C04"],
+             "kind_free_text": "the complete real ChainService through its public API against scripted wire peers reached through Config.Dialer; one child process per scenario"},
+            {"name": "crash runner", "path": "harness/internal/c08", "serves_properties": ["C08"],
+             "kind_free_text": "crash images at every File/DB boundary point and real SIGKILL of child processes, recovery oracle on reopen"},
             {"name": "chaingen + ref", "path": "harness/internal/chaingen", "serves_properties": ALL,
              "kind_free_text": "seeded block-tree generator (PoW, retargeting presets, txs, BIP158 filters) and independent reference validators"},
             {"name": "component drivers", "path": "harness/internal/c07 c09 c10 c11 c12 c13 c14 c15 c16", "serves_properties": ["C07","C09","C10","C11","C12","C13","C14","C15","C16"],
              "kind_free_text": "exported constructors of one package driven directly with fakes at its boundary and a reference model as oracle"},
-            {"name": "netsim", "path": "harness/internal/netsim", "serves_properties": ["C01", "C02", "C03", "C19"],
+            {"name": "netsim", "path": "harness/internal/netsim", "serves_properties": ["C01", "C02", "C03", "C04", "C19"],
              "kind_free_text": "buffered in-memory connections, wire-level scripted peers (honest / liar behaviours), event log"},
         ],
         "checks": checks,
